@@ -296,6 +296,9 @@ func reifyStruct(opts *options, orig reflect.Value, cfg *Config) Error {
 		tryInitDefaults(to)
 		numField := to.NumField()
 		for i := 0; i < numField; i++ {
+			// every field is evaluated on its own, like every entry of a map
+			opts.activeFields = newFieldSet(parentFields)
+
 			fInfo, skip, err := accessField(to, i, opts)
 			if err != nil {
 				return err
@@ -643,8 +646,12 @@ func reifyDoArray(
 ) (reflect.Value, Error) {
 	aLen := len(arr)
 	tLen := to.Len()
+	active := opts.opts.activeFields
+	defer func() { opts.opts.activeFields = active }()
 	for idx := 0; idx < tLen; idx++ {
 		if idx >= start && idx < start+aLen {
+			// every entry is evaluated on its own
+			opts.opts.activeFields = newFieldSet(active)
 			v, err := reifyMergeValue(opts, to.Index(idx), arr[idx-start])
 			if err != nil {
 				return reflect.Value{}, err
